@@ -91,4 +91,6 @@ struct RunResult {
 };
 
 RunResult execute(const Plan &plan, const ExecCfg &cfg);
+extern volatile int g_trace_gate;   // 1 only while a real (non-model) library call of an operation runs (ctsim)
+extern volatile int g_trace_op;
 extern SpecSkinny g_spec;
